@@ -479,8 +479,8 @@ def program_source(spec):
         _, tc, ka, kb, shared, desc, param, ret, k = spec
         src = ilv_source("f", ka, desc, ret, (tuple(param),), k)
         if shared:
-            return src + "# call A and call B are two calls of the same decorated f\n"
-        return src + ilv_source("g", kb, desc, ret, (tuple(param),), k) + "# call A is a call of f, call B a call of g\n"
+            return src + "# call A (array of shape (2,)) and call B (shape (3,)) are two calls of the same decorated f; schedule = order of the steps (first letter occurrence = the call, later ones = next() on its coroutine/generator)\n"
+        return src + ilv_source("g", kb, desc, ret, (tuple(param),), k) + "# call A is a call of f (array of shape (2,)), call B a call of g (shape (3,)); schedule = order of the steps (first letter occurrence = the call, later ones = next() on its coroutine/generator)\n"
     if spec[0] == "prop":
         _, fname, tc, gret, sname, sann, sret = spec
         return (
@@ -1415,8 +1415,8 @@ def eval_program(env, spec, stats, on_violation, samples=None):
             stats[k] = stats.get(k, 0) + 1
         if bad is not None:
             on_violation(spec, case, bad[0], bad[1])
-        elif samples is not None and len(samples) < 4 and case["kind"] != "static" and stats["evaluations"] % 97 == 0:
-            samples.append(dict(program=program_source(spec), typechecker=spec_tc(spec), case={k: v for k, v in case.items() if not k.startswith("_")}, verdict="indistinguishable from the undecorated callable" if case["kind"] in ("bind", "ilv") else "rejected, body not run"))
+        elif samples is not None and case["kind"] != "static" and stats["evaluations"] % 97 == 0 and sum(1 for q in samples if q["family"] == spec[0]) < (3 if spec[0] == "fn" else 1):
+            samples.append(dict(family=spec[0], program=program_source(spec), typechecker=spec_tc(spec), case={k: v for k, v in case.items() if not k.startswith("_")}, verdict="indistinguishable from the undecorated callable" if case["kind"] in ("bind", "ilv") else "rejected, body not run"))
 
 
 def _run_shard(job):
@@ -1734,9 +1734,9 @@ def run(ctx):
             raise common.HarnessError(f"violation does not replay deterministically: {v['key']} {r1} {r2}")
         viols.append(Violation(key=v["key"], what=v["what"] + f"\n  ({per_key[v['key']]} instance(s) of this key in the run)", replay=v["replay"]))
     allsamples = [s for o in outs for s in o["samples"]]
-    samples = allsamples[:3]
-    for marker in ("W = ", "_t_ = _R_"):
-        samples += [s for s in allsamples if marker in s["program"] and s not in samples][:1]
+    samples = [s for s in allsamples if s["family"] == "fn"][:3]
+    for fam in ("prop", "wrap", "ilv"):
+        samples += [s for s in allsamples if s["family"] == fam][:1]
     x_n, x_viols = extra_part()
     xk = set()
     for v in x_viols:
